@@ -112,6 +112,11 @@ def wl_cbf(ctx, rng, case):
                 ctx.fail(f"count below the key's outstanding additions {where}", key=k, count=c, outstanding=out[k])
             if (k in f) != (c > 0):
                 ctx.fail(f"`in` disagrees with check() {where}", key=k)
+            # the key hashed once for a DEEPER structure (prefix-stable strategies exist for exactly this): the count read through
+            # check_alt with that list must not fall below the outstanding additions either
+            deep = f.check_alt(f.hashes(k, kk + 1 + step % 4))
+            if deep < out[k]:
+                ctx.fail(f"check_alt() given a deeper hash list reports a count below the key's outstanding additions {where}", key=k, count=deep, outstanding=out[k], check=c)
         order = list(keys)
         rng.shuffle(order)
         g = fresh_with(P, est, rate, hf, out, order)
